@@ -55,6 +55,7 @@ struct RunResult {
   std::vector<World> worlds; // world at the start of tick i (after its ops)
   World final_world;
   std::vector<int64_t> tick_ms; // virtual time at the start of tick i
+  std::vector<std::map<std::string, uint64_t>> inode_at_tick; // path -> dir inode at tick start
   std::map<std::string, int> stats_after;
   std::map<uint64_t, std::string> inodes; // every cgroup dir inode -> path
   std::map<uint64_t, std::map<std::string, std::string>> initial_xattrs;
